@@ -196,8 +196,9 @@ def to_coq(rows, leak_rows=()):
         body.append('  ("%s", "%s", %s, %s)' % (r['class'], r['method'].replace('"', "'"), sl(r['all']), sl(r['any'])))
     out.append(';\n'.join(body))
     out.append('].')
-    out.append('(* path-sensitive pass over HashSet / TreeSet: public members with a normal return reached after a write to a')
-    out.append('   structural field of *this (mCount, mCapacity, mBuckets / mCount, mRootNode, mNodeParams) and without IncVersion *)')
+    out.append('(* path-sensitive pass over HashSet / TreeSet / HashMap / TreeMap / HashMultiMap / DataTable: public members with a normal')
+    out.append('   return reached after a structural write of some version cell (own fields, or a mutating call on the nested container)')
+    out.append('   and without the bump of that cell on the same path; the cell is named in brackets *)')
     out.append('Definition version_leaks : list (string * string) := [' +
                '; '.join('("%s", "%s")' % (c, m.replace('"', "'")) for c, m in leak_rows) + '].')
     return '\n'.join(out) + '\n'
@@ -216,7 +217,34 @@ if __name__ == '__main__':
 # constant-folded template conditions, loops to a fixpoint, return, throw, try/catch, lambdas as "may run here", calls to own
 # member functions through summaries computed to a fixpoint).  A member LEAKS if some normal return is reachable in state
 # (written, not bumped).  Exceptional exits are ignored (strong exception safety is property C04's business).
-STRUCT_FIELDS = {'HashSet': {'mCount', 'mCapacity', 'mBuckets'}, 'TreeSet': {'mCount', 'mRootNode', 'mNodeParams'}}
+# Per class: cells (write bit 2j, bump bit 2j+1).
+#  fields      : member of *this whose assignment / ++ / -- / compound assignment is a structural write of cell j
+#  incversion  : this->mCrew.IncVersion() bumps cell j
+#  inc_bumps   : ++<expr containing this->...Name()> bumps cell j
+#  nested      : calls on this-><member> use the summaries of the nested container class (its cell 0 -> our cell j)
+#  member_calls: calls this-><member>.<name>() that are structural writes of the given cells
+#  write_calls : calls of own member functions that are structural writes of the given cells (in addition to their summary)
+PATH_CFG = {
+    'HashSet': dict(fields={'mCount': 0, 'mCapacity': 0, 'mBuckets': 0}, incversion=0),
+    'TreeSet': dict(fields={'mCount': 0, 'mRootNode': 0, 'mNodeParams': 0}, incversion=0),
+    'HashMap': dict(nested={'mHashSet': ('HashSet', 0)}),
+    'TreeMap': dict(nested={'mTreeSet': ('TreeSet', 0)}),
+    'HashMultiMap': dict(nested={'mHashMap': ('HashMap', 0)}, fields={'mValueCount': 1}, inc_bumps={'GetValueVersion': 1}),
+    'DataTable': dict(inc_bumps={'GetChangeVersion': 0, 'GetRemoveVersion': 1},
+                      member_calls={('mRaws', 'AddBackNogrow'): [0], ('mRaws', 'AddBack'): [0], ('mRaws', 'Insert'): [0],
+                                    ('mRaws', 'Remove'): [0, 1], ('mRaws', 'RemoveBack'): [0, 1], ('mRaws', 'Clear'): [0, 1],
+                                    ('mRaws', 'SetCount'): [0, 1]},
+                      write_calls={'pvDestroyRaw': [0, 1], 'pvDestroyRaws': [0, 1]}),
+}
+PATH_CELLS = {'HashSet': ['version'], 'TreeSet': ['version'], 'HashMap': ['HashSet.version'], 'TreeMap': ['TreeSet.version'],
+              'HashMultiMap': ['key version', 'valueVersion'], 'DataTable': ['changeVersion', 'removeVersion']}
+CLASS_SUMM = {}     # class -> member name -> set of states (union over overloads / instantiations)
+
+
+def leaky(state, ncells):
+    return any((state >> (2 * j)) & 1 and not (state >> (2 * j + 1)) & 1 for j in range(ncells))
+
+
 SKIP = ('ImplicitCastExpr', 'ParenExpr', 'SubstNonTypeTemplateParmExpr', 'ConstantExpr', 'ExprWithCleanups', 'MaterializeTemporaryExpr')
 
 
@@ -236,12 +264,23 @@ def _on_this(member_expr):
 
 
 class PathPass:
-    def __init__(self, cls, body):
-        self.fields = STRUCT_FIELDS[cls]; self.body = body; self.summ = {i: set() for i in body}
+    def __init__(self, cls, body, names=None):
+        self.cfg = PATH_CFG[cls]; self.fields = self.cfg.get('fields', {}); self.body = body
+        self.summ = {i: set() for i in body}; self.names = names or {}
 
     def is_field(self, n):
         n = _strip(n)
         return isinstance(n, dict) and n.get('kind') == 'MemberExpr' and n.get('name') in self.fields and _on_this(n)
+
+    def wbit(self, n):
+        return 1 << (2 * self.fields[_strip(n).get('name')])
+
+    def this_member(self, n):
+        """name of m if n is this->m (possibly wrapped), else None"""
+        n = _strip(n) if isinstance(n, dict) else {}
+        if n.get('kind') == 'MemberExpr' and _on_this(n) and n.get('type', {}).get('qualType') != '<bound member function type>':
+            return n.get('name')
+        return None
 
     def expr(self, n, S):
         if not isinstance(n, dict) or not S:
@@ -268,21 +307,48 @@ class PathPass:
                 S = self.expr(base, S) if base is not None and _strip(base).get('kind') != 'CXXThisExpr' else S
                 if callee.get('name') == 'IncVersion':
                     crew = _strip(base) if base is not None else {}
-                    if crew.get('kind') == 'MemberExpr' and _on_this(crew):
-                        return {s | 2 for s in S}
+                    if 'incversion' in self.cfg and crew.get('kind') == 'MemberExpr' and _on_this(crew):
+                        return {s | (2 << (2 * self.cfg['incversion'])) for s in S}
+                    return S
+                owner = self.this_member(base) if base is not None else None
+                if owner is not None:
+                    nm = callee.get('name')
+                    if owner in self.cfg.get('nested', {}):
+                        ncls, cell = self.cfg['nested'][owner]
+                        eff = CLASS_SUMM.get(ncls, {}).get(nm)
+                        if eff:
+                            shifted = {((e & 3) << (2 * cell)) for e in eff}
+                            return {s | e for s in S for e in shifted}
+                        return S
+                    cells = self.cfg.get('member_calls', {}).get((owner, nm))
+                    if cells:
+                        w = 0
+                        for c in cells: w |= 1 << (2 * c)
+                        return {s | w for s in S}
                     return S
                 ref = callee.get('referencedMemberDecl')
                 if ref in self.summ and _on_this(callee):
-                    return {s | e for s in S for e in self.summ[ref]}
+                    S = {s | e for s in S for e in self.summ[ref]}
+                    cells = self.cfg.get('write_calls', {}).get(callee.get('name'))
+                    if cells:
+                        w = 0
+                        for c in cells: w |= 1 << (2 * c)
+                        S = {s | w for s in S}
+                    return S
             return S
         for c in inner:
             if k in ('BinaryOperator', 'CompoundAssignOperator') and c is inner[0] and self.is_field(c):
                 continue
             S = self.expr(c, S)
         if (k == 'CompoundAssignOperator' or (k == 'BinaryOperator' and n.get('opcode') == '=')) and inner and self.is_field(inner[0]):
-            S = {s | 1 for s in S}
-        if k == 'UnaryOperator' and n.get('opcode') in ('++', '--') and inner and self.is_field(inner[0]):
-            S = {s | 1 for s in S}
+            S = {s | self.wbit(inner[0]) for s in S}
+        if k == 'UnaryOperator' and n.get('opcode') in ('++', '--') and inner:
+            if self.is_field(inner[0]):
+                S = {s | self.wbit(inner[0]) for s in S}
+            elif n.get('opcode') == '++' and self.cfg.get('inc_bumps'):
+                for q in walk(inner[0]):
+                    if q.get('kind') == 'MemberExpr' and q.get('name') in self.cfg['inc_bumps']:
+                        S = {s | (2 << (2 * self.cfg['inc_bumps'][q['name']])) for s in S}
         return S
 
     def stmt(self, n, S):
@@ -360,27 +426,35 @@ class PathPass:
         return self.summ
 
 
-def leaks(repo, classes=('HashSet', 'TreeSet')):
-    """[(class, method)] public members with a normal return in state (written, not bumped)"""
+def leaks(repo, classes=None):
+    """[(class, method)] public members with a normal return in a state where some cell was written and not bumped"""
     out = []
+    CLASS_SUMM.clear()
     for cls, define in CLASSES:
-        if cls not in classes:
+        if cls not in PATH_CFG or (classes and cls not in classes and cls not in ('HashSet', 'TreeSet', 'HashMap')):
             continue
         cfg = {'tu': os.path.join(os.path.dirname(os.path.abspath(__file__)), 'inst.cpp'), 'filter': cls, 'class': cls,
                'defines': [define], 'includes': [os.path.join(repo, 'include')]}
         spec = cxx2coq.find_spec(cxx2coq.load_objs(cxx2coq.dump_ast(cfg, repo)), cfg)
-        body = {}; pub = []; acc = 'private'
+        body = {}; pub = []; acc = 'private'; names = {}
         for m in spec.get('inner', []):
             if m.get('kind') == 'AccessSpecDecl':
                 acc = m.get('access', acc); continue
             if m.get('kind') not in ('CXXMethodDecl', 'FunctionTemplateDecl'):
                 continue
             for b in bodies(m):
-                body[b['id']] = b
+                body[b['id']] = b; names[b['id']] = m.get('name')
                 if acc == 'public' and not (m.get('name') or '').startswith('operator='):
                     pub.append((m.get('name'), params_of(b, cls)[0], b['id']))
         summ = PathPass(cls, body).run()
+        cs = {}
+        for i, st in summ.items():
+            cs.setdefault(names[i], set()).update(st)
+        CLASS_SUMM[cls] = cs
+        ncells = len(PATH_CELLS[cls])
         for name, ps, i in pub:
-            if 1 in summ[i]:
-                out.append((cls, '%s(%s)' % (name, ps)))
+            bad = [s for s in summ[i] if leaky(s, ncells)]
+            if bad and (not classes or cls in classes):
+                cells = sorted({PATH_CELLS[cls][j] for s in bad for j in range(ncells) if (s >> (2 * j)) & 1 and not (s >> (2 * j + 1)) & 1})
+                out.append((cls, '%s(%s) [%s]' % (name, re.sub(r'\(lambda at [^)]*\)', 'lambda', ps), ', '.join(cells))))
     return sorted(set(out))
